@@ -63,6 +63,10 @@ fn run_check(id: &str, tier: &str) -> i32 {
         engines.push(format!("lockstep E1 (profile {})", chk.profile.name));
     }
     let failed = |outs: &Vec<checks::CheckOutcome>| outs.iter().any(|o| o.violation.is_some() || o.inconclusive.is_some());
+    if id == "C19" {
+        outs.push(checks::run_diff_check(tier, seed, &stats));
+        engines.push("lockstep differential sync vs async (E1)".to_string());
+    }
     for part in checks::comp_parts(id) {
         if failed(&outs) {
             break;
@@ -155,6 +159,26 @@ fn run_replay(id: &str, file: &str) -> i32 {
                 }
                 println!("VIOLATION property={} replay={}", id, file);
                 1
+            }
+        }
+        "diff" => {
+            let case: lockstep::Case = serde_json::from_value(v["case"].clone()).expect("bad case");
+            match checks::diff_case(&case, None) {
+                Ok(f) if f.is_empty() => {
+                    println!("replay: sync and async flavours agree on this case");
+                    0
+                }
+                Ok(f) => {
+                    for l in f {
+                        println!("counterexample: {}", l);
+                    }
+                    println!("VIOLATION property={} replay={}", id, file);
+                    1
+                }
+                Err(h) => {
+                    println!("INCONCLUSIVE {}", h);
+                    2
+                }
             }
         }
         "stress" => {
